@@ -23,8 +23,24 @@ def main(argv):
         st, audit = core.prepare_lean(ctx)
         only = None
         if replay:
-            only = [json.loads(open(replay).read())]
-        res = mod.run(ctx, only) if only is not None else mod.run(ctx)
+            rec = json.loads(open(replay).read())
+            # a replay file either holds ONE failing case (`input`) or names the theorem / correspondence that no longer checks
+            # (`broken`, written with `no-failing-input-found`): the latter is replayed by running the whole check again
+            if 'input' in rec:
+                only = [rec]
+        if only is not None:
+            try:
+                res = mod.run(ctx, only)
+                unrecognised = any(f.get('kind') == 'scenario-raised' and 'KeyError' in str(f.get('observed', '')) for f in res.failures)
+            except (KeyError, TypeError, IndexError):
+                unrecognised = True
+            if unrecognised:
+                # a case of a scenario family without a targeted replay (life-cycle histories, …): re-run the full tier under the
+                # seed the replay was recorded with — the generators are deterministic in (seed, property), so the case recurs
+                ctx = core.Ctx(prop, rec.get('tier', tier), int(rec.get('seed', seed)), replay)
+                res = mod.run(ctx)
+        else:
+            res = mod.run(ctx)
         # known findings (replays of recorded defects): modules may implement known(ctx, res)
         if hasattr(mod, 'known'):
             mod.known(ctx, res)
